@@ -9,6 +9,7 @@ from unittest import mock
 
 from . import coqlit as L
 from .core import Prop, rp_import, run_impl_cases
+from .sides import Sides, Spec
 
 STATES = None
 
@@ -43,7 +44,7 @@ def errname(e):
     return e if e in ('ValueError', 'RuntimeError') else 'OtherError'
 
 
-class C06(Prop):
+class C06Updates(Prop):
     id = 'C06'
     module = 'c06'
     title = 'Applications observe the linear task state model'
@@ -260,6 +261,18 @@ class C06(Prop):
                             % (u, full, alone)))
                 break
         return bad
+
+
+class C06(Sides, C06Updates):
+    # the other thread that changes task states on the client: the pilot manager's callback thread failing the tasks
+    # of a dead pilot (TaskManager._pilot_state_cb) while the state subscriber handles a notification -- the C13
+    # two-thread cases: one final state only, and the callback stream stays a chain
+    side_specs = [Spec('death', 'c13', ['one_final_state_under_concurrent_update',
+                                        'callbacks_linear_under_concurrent_update'],
+                       only=lambda c: isinstance(c, dict) and 'race' in c)]
+    clauses = C06Updates.clauses + side_specs[0].clause_names()
+    extra_targets = C06Updates.extra_targets + ['States/DeathRace.vo', 'PilotDeath/Oracle.vo']
+    model_targets = C06Updates.model_targets + ['States/DeathRace.vo', 'PilotDeath/Oracle.vo']
 
 
 PROP = C06()
